@@ -1,4 +1,4 @@
-use std::io::{Cursor, Read};
+use std::io::Cursor;
 use byteorder::{ReadBytesExt, BigEndian};
 use indexmap::IndexMap;
 use crate::encoded_strings::{EncodedStringReader, to_shift_jis};
@@ -42,10 +42,12 @@ pub fn parse(raw: &[u8]) -> Result<IndexMap<String, Vec<u8>>> {
     for entry in entry_metadata {
         cursor.set_position(entry.name_address as u64);
         let name = cursor.read_shift_jis_string()?;
-        cursor.set_position(entry.file_address as u64);
-        let mut contents = vec![0; entry.file_size_unpadded as usize];
-        cursor.read_exact(&mut contents)?;
-        entries.insert(name, contents);
+        let start = entry.file_address as usize;
+        let end = start
+            .checked_add(entry.file_size_unpadded as usize)
+            .filter(|end| *end <= raw.len())
+            .ok_or(crate::ArchiveError::ArchiveTooSmall)?;
+        entries.insert(name, raw[start..end].to_vec());
     }
     Ok(entries)
 }
